@@ -493,6 +493,7 @@ impl World {
             let mut block_diff = (target_epoch / new_len as u128).max(2) as u64;
             // make sure the realised (compact-rounded) epoch difficulty stays within tau
             let mut tries = 0;
+            let mut new_len = new_len;
             let (mut c, mut real) = real_difficulty(block_diff);
             loop {
                 let new_epoch = &real * new_len;
@@ -503,14 +504,19 @@ impl World {
                 }
                 tries += 1;
                 if new_epoch > hi {
-                    block_diff = block_diff - block_diff / 8 - 1;
+                    if block_diff <= 2 {
+                        // cannot lower the difficulty any further: shorten the epoch instead
+                        new_len = (new_len - 1).max(1);
+                    } else {
+                        block_diff = (block_diff - block_diff / 8).saturating_sub(1).max(2);
+                    }
                 } else {
                     block_diff = block_diff + block_diff / 8 + 1;
                 }
                 let r = real_difficulty(block_diff.max(2));
                 c = r.0;
                 real = r.1;
-                assert!(tries < 200, "cannot fit difficulty into tau");
+                assert!(tries < 2000, "cannot fit difficulty into tau");
             }
             (EpochNumberWithFraction::new(pe.number() + 1, 0, new_len), c)
         } else {
